@@ -82,6 +82,9 @@ func Explore(scenario func(), eo ExploreOpts) *Report {
 		if x.Divergence != "" {
 			panic("VERIF-INFRA: " + x.Divergence + " prefix=" + fmt.Sprint(prefix))
 		}
+		if strings.Contains(x.Panic, "VERIF-INFRA") {
+			panic(x.Panic) // the machinery's own failure inside a scheduled thread: never a verdict on the code under test
+		}
 		for i := range x.Points {
 			rep.StateHashes[x.Points[i].Key] = true
 		}
